@@ -184,6 +184,9 @@ pub enum TargetMode {
     /// echo, but close the connection after 300 ms without traffic (keeps long LX runs within the
     /// descriptor limit: the server never closes a target connection by itself — open finding C08)
     EchoIdleClose,
+    /// a slow consumer: tiny receive buffer, starts reading only after 400 ms, then reads until EOF
+    /// (whoever writes to it sees back-pressure and partial writes)
+    SlowSink,
 }
 
 pub struct Target {
@@ -224,7 +227,14 @@ impl Target {
 
 pub async fn start_target(ip: &str, mode: TargetMode, greeting: Vec<u8>) -> Target {
     let bind = if ip.contains(':') { format!("[{ip}]:0") } else { format!("{ip}:0") };
-    let l = TcpListener::bind(&bind).await.expect("bind target");
+    let l = if mode == TargetMode::SlowSink {
+        let sock = if ip.contains(':') { tokio::net::TcpSocket::new_v6() } else { tokio::net::TcpSocket::new_v4() }.expect("socket");
+        let _ = sock.set_recv_buffer_size(4096);
+        sock.bind(bind.parse().expect("addr")).expect("bind target");
+        sock.listen(64).expect("listen")
+    } else {
+        TcpListener::bind(&bind).await.expect("bind target")
+    };
     let addr = l.local_addr().unwrap();
     let conns: Arc<std::sync::Mutex<Vec<Arc<std::sync::Mutex<TargetConn>>>>> = Arc::new(std::sync::Mutex::new(vec![]));
     let c2 = conns.clone();
@@ -248,6 +258,9 @@ pub async fn start_target(ip: &str, mode: TargetMode, greeting: Vec<u8>) -> Targ
                         let _ = s.shutdown().await;
                     }
                     _ => {}
+                }
+                if mode == TargetMode::SlowSink {
+                    tokio::time::sleep(Duration::from_millis(400)).await;
                 }
                 let mut buf = vec![0u8; 65536];
                 loop {
@@ -279,9 +292,20 @@ pub async fn start_target(ip: &str, mode: TargetMode, greeting: Vec<u8>) -> Targ
     Target { addr, conns, task }
 }
 
+/// A TCP connection whose receive buffer is tiny (the local application is a slow consumer).
+pub async fn connect_small_rcvbuf(to: SocketAddr) -> Result<TcpStream, String> {
+    let sock = if to.is_ipv6() { tokio::net::TcpSocket::new_v6() } else { tokio::net::TcpSocket::new_v4() }.map_err(|e| e.to_string())?;
+    let _ = sock.set_recv_buffer_size(4096);
+    sock.connect(to).await.map_err(|e| e.to_string())
+}
+
 /// SOCKS5 client side: greeting + CONNECT to `dest`; returns the stream after the success reply.
 pub async fn socks5_connect(proxy: SocketAddr, dest: SocketAddr) -> Result<TcpStream, String> {
-    let mut s = TcpStream::connect(proxy).await.map_err(|e| e.to_string())?;
+    let s = TcpStream::connect(proxy).await.map_err(|e| e.to_string())?;
+    socks5_connect_on(s, dest).await
+}
+
+pub async fn socks5_connect_on(mut s: TcpStream, dest: SocketAddr) -> Result<TcpStream, String> {
     let _ = s.set_nodelay(true);
     s.write_all(&[5, 1, 0]).await.map_err(|e| e.to_string())?;
     let mut r = [0u8; 2];
